@@ -73,6 +73,10 @@ def int_spellings(t, tier):
         (f'K_{U} << 2', K << 2, 'expr'),
         (f'K_{U} * 2', K * 2, 'expr'),
         (f'lim_{t}()', LIM, 'call'),
+        # literals the macro cannot read with str::parse: they travel as expressions
+        ('0x10', 16, 'expr'),
+        ('0b101', 5, 'expr'),
+        (f'10{t}', 10, 'expr'),
     ]
     if int_bits(t) >= 16:
         sp.append(('1_000', 1000, 'lit'))
@@ -93,6 +97,10 @@ def int_spellings(t, tier):
             (f'K_{U} % 3', K % 3, 'expr'),
             (f'{t}::MAX - 1', int_max(t) - 1, 'expr'),
             (f'{t}::MIN + 1', int_min(t) + 1, 'expr'),
+            ('0o17', 15, 'expr'),
+            ('0x1F', 31, 'expr'),
+            (f'0x10{t}', 16, 'expr'),
+            ('1_0', 10, 'lit'),
         ]
     return sp
 
@@ -118,6 +126,8 @@ def float_spellings(t, tier):
         (f'(KF_{U} + 1.0)', KF + 1.0, 'expr'),
         (f'KF_{U} * 2.0', KF * 2.0, 'expr'),
         (f'limf_{t}()', LIMF, 'call'),
+        (f'1.5{t}', 1.5, 'expr'),
+        (f'-2{t}', -2.0, 'expr'),
     ]
     if tier == 'thorough':
         sp += [
@@ -494,6 +504,66 @@ def build(tier='quick', seed=0):
                          derives=['Debug'], tags=['unchecked']))
         full.append(decl('int', t, new_unchecked=True, derives=['Debug'], tags=['unchecked']))
 
+    # ---------------- thorough: random literal bounds (seeded) and spelling x spelling pairs ----------
+    if thorough:
+        for t in int_types:
+            lo_t, hi_t = int_min(t), int_max(t)
+            picks = set()
+            specials = [lo_t, lo_t + 1, -1, 0, 1, 2, hi_t - 1, hi_t, hi_t // 2, lo_t // 2]
+            specials = [x for x in specials if lo_t <= x <= hi_t]
+            while len(picks) < 24:
+                a = rnd.choice(specials) if rnd.random() < 0.5 else rnd.randint(lo_t, hi_t)
+                b = rnd.choice(specials) if rnd.random() < 0.5 else rnd.randint(lo_t, hi_t)
+                if a + 2 <= b:
+                    picks.add((a, b))
+            for (a, b) in sorted(picks):
+                lo, up = rnd.choice(LOWERS), rnd.choice(UPPERS)
+                vs = [V(lo, str(a), a, 'lit'), V(up, str(b), b, 'lit')]
+                if rnd.random() < 0.5:
+                    vs.reverse()
+                full.append(decl('int', t, validators=vs, derives=['Debug', 'TryFrom', 'FromStr', 'Arbitrary', 'Display'], tags=['random-literal']))
+            sps = [sp for sp in int_spellings(t, tier) if sp[2] != 'lit']
+            pairs = [(x, y) for x in sps for y in sps if x[1] + 2 <= y[1]]
+            for (x, y) in _pick(pairs, 40, rnd):
+                lo, up = rnd.choice(LOWERS), rnd.choice(UPPERS)
+                vs = [V(lo, *x), V(up, *y)]
+                if rnd.random() < 0.5:
+                    vs.reverse()
+                full.append(decl('int', t, validators=vs, derives=['Debug', 'TryFrom', 'Arbitrary'], tags=['spelling-pair']))
+        for t in FLOAT_TYPES:
+            sps = [sp for sp in float_spellings(t, tier) if sp[1] not in (float('inf'), float('-inf'))]
+            pairs = [(x, y) for x in sps for y in sps if x[1] < y[1]]
+            for (x, y) in _pick(pairs, 80, rnd):
+                lo, up = rnd.choice(LOWERS), rnd.choice(UPPERS)
+                vs = [V(lo, *x), V(up, *y)]
+                if rnd.random() < 0.5:
+                    vs.reverse()
+                fin = rnd.random() < 0.5
+                full.append(decl('float', t, validators=vs + ([V('finite')] if fin else []),
+                                 derives=['Debug', 'TryFrom', 'FromStr', 'PartialEq', 'PartialOrd', 'Display'] + (['Arbitrary'] if x[2] == 'lit' and y[2] == 'lit' else []),
+                                 tags=['spelling-pair']))
+        # every pair of derivable traits (plus their prerequisites) per family, with and without validation
+        fam_traits = {
+            'int': ('i64', ['Debug', 'Clone', 'Copy', 'PartialEq', 'Eq', 'PartialOrd', 'Ord', 'Hash', 'AsRef', 'Deref', 'Borrow', 'Into', 'Display', 'FromStr', 'Serialize', 'Deserialize', 'Arbitrary'],
+                    [V('greater_or_equal', '1', 1, 'lit'), V('less', '1_000', 1000, 'lit')]),
+            'float': ('f64', ['Debug', 'Clone', 'Copy', 'PartialEq', 'Eq', 'PartialOrd', 'Ord', 'AsRef', 'Deref', 'Borrow', 'Into', 'Display', 'FromStr', 'Serialize', 'Deserialize', 'Arbitrary'],
+                      [V('finite'), V('greater_or_equal', '1', 1.0, 'lit'), V('less_or_equal', '1e3', 1000.0, 'lit')]),
+            'string': ('String', ['Debug', 'Clone', 'PartialEq', 'Eq', 'PartialOrd', 'Ord', 'Hash', 'AsRef', 'Deref', 'Borrow', 'Into', 'Display', 'FromStr', 'Serialize', 'Deserialize', 'Arbitrary'],
+                       [V('not_empty'), V('len_char_max', '12', 12, 'lit')]),
+        }
+        req = {'Copy': ['Clone'], 'Eq': ['PartialEq'], 'Ord': ['PartialEq', 'Eq', 'PartialOrd'], 'PartialOrd': ['PartialEq']}
+        for fam, (inner, traits, vs) in fam_traits.items():
+            for a, b in itertools.combinations(traits, 2):
+                ds = []
+                for x in req.get(a, []) + req.get(b, []) + [a, b]:
+                    if x not in ds:
+                        ds.append(x)
+                full.append(decl(fam, inner, validators=vs, derives=ds + ['TryFrom'], tags=['derive-pair']))
+                if rnd.random() < 0.35:
+                    fvs = [v for v in vs if v['kind'] == 'finite'] if fam == 'float' and ({'Eq', 'Ord'} & set(ds)) else []
+                    if not fvs:
+                        full.append(decl(fam, inner, sanitizers=[S('trim')] if fam == 'string' else [], derives=ds + ['From'], tags=['derive-pair']))
+
     # ---------------- integers: all ordered validator subsets (C07) -----------------
     for t in (int_types if thorough else ['i32', 'u8']):
         kinds = ['greater', 'greater_or_equal', 'less', 'less_or_equal', 'predicate']
@@ -838,7 +908,7 @@ def build(tier='quick', seed=0):
     name_all(nostd, 'N')
 
     # split the full corpus into chunks compiled as separate crates (parallel rustc)
-    nchunks = 12 if thorough else 6
+    nchunks = 16 if thorough else 6
     chunks = [[] for _ in range(nchunks)]
     for i, d in enumerate(full):
         chunks[i % nchunks].append(d)
@@ -877,6 +947,10 @@ def build_tests(tier='quick'):
                     empty = True
                 add(decl('int', t, validators=[V(lo, lt, lv, 'expr'), V(up, ut, uv, 'expr')], derives=['Debug'], tags=['gentest']),
                     consistent_test='fails' if empty else 'passes')
+        for (lt, lv), (ut, uv), empty in (((('0x20', 32), ('0x10', 16), True)), (('0x10', 16), ('0x20', 32), False), ((f'20{t}', 20), ('10', 10), True),
+                                          (('0b11', 3), (f'3{t}', 3), False)):
+            add(decl('int', t, validators=[V('greater_or_equal', lt, lv, 'expr'), V('less_or_equal', ut, uv, 'expr' if not ut.isdigit() else 'lit')],
+                     derives=['Debug'], tags=['gentest', 'nondecimal-literal']), consistent_test='fails' if empty else 'passes')
         add(decl('int', t, validators=[V('greater_or_equal', f'K_{U}', K, 'expr')], derives=['Debug', 'Default'], default={'text': f'K_{U} - 1', 'value': K - 1},
                  tags=['gentest']), default_test='fails')
         add(decl('int', t, validators=[V('greater_or_equal', f'K_{U}', K, 'expr')], derives=['Debug', 'Default'], default={'text': f'K_{U}', 'value': K},
@@ -894,6 +968,10 @@ def build_tests(tier='quick'):
                     empty = lv > uv
                 add(decl('float', t, validators=[V(lo, lt, lv, 'expr'), V(up, ut, uv, 'expr')], derives=['Debug'], tags=['gentest']),
                     consistent_test='fails' if empty else 'passes')
+        add(decl('float', t, validators=[V('greater', f'1.5{t}', 1.5, 'expr'), V('less_or_equal', f'1.5{t}', 1.5, 'expr')], derives=['Debug'],
+                 tags=['gentest', 'nondecimal-literal']), consistent_test='fails')
+        add(decl('float', t, validators=[V('greater_or_equal', f'1.5{t}', 1.5, 'expr'), V('less_or_equal', '2.5', 2.5, 'lit')], derives=['Debug'],
+                 tags=['gentest', 'nondecimal-literal']), consistent_test='passes')
         add(decl('float', t, validators=[V('finite'), V('greater', '0', 0.0, 'lit')], derives=['Debug', 'Default'], default={'text': '0.0', 'value': 0.0},
                  tags=['gentest']), default_test='fails')
         add(decl('float', t, validators=[V('finite')], derives=['Debug', 'Default'], default={'text': f'{t}::INFINITY', 'value': float('inf')},
@@ -904,6 +982,10 @@ def build_tests(tier='quick'):
                              (('MINLEN + 1', MINLEN + 1), ('MINLEN', MINLEN))):
         add(decl('string', 'String', validators=[V('len_char_min', a, av, 'expr'), V('len_char_max', b, bv, 'expr')], derives=['Debug'], tags=['gentest']),
             consistent_test='fails' if av > bv else 'passes')
+    add(decl('string', 'String', validators=[V('len_char_min', '0x10', 16, 'expr'), V('len_char_max', '0x08', 8, 'expr')], derives=['Debug'],
+             tags=['gentest', 'nondecimal-literal']), consistent_test='fails')
+    add(decl('string', 'String', validators=[V('len_char_min', '2usize', 2, 'expr'), V('len_char_max', '0x08', 8, 'expr')], derives=['Debug'],
+             tags=['gentest', 'nondecimal-literal']), consistent_test='passes')
     add(decl('string', 'String', validators=[V('not_empty')], derives=['Debug', 'Default'], default={'text': '""', 'value': ''}, tags=['gentest']),
         default_test='fails')
     add(decl('string', 'String', sanitizers=[S('trim')], validators=[V('not_empty')], derives=['Debug', 'Default'], default={'text': '"   "', 'value': '   '},
